@@ -392,6 +392,8 @@ impl Listener {
                     let _ = s.set_nonblocking(false);
                     let _ = s.set_nodelay(true);
                     let _ = s.set_read_timeout(Some(Duration::from_millis(200)));
+                    // a client that stops reading without closing must not block the peer forever
+                    let _ = s.set_write_timeout(Some(Duration::from_secs(10)));
                     return Some(s);
                 }
                 Err(e) if e.kind() == std::io::ErrorKind::WouldBlock => {
@@ -417,6 +419,8 @@ impl Listener {
                     let _ = s.set_nonblocking(false);
                     let _ = s.set_nodelay(true);
                     let _ = s.set_read_timeout(Some(Duration::from_millis(200)));
+                    // a client that stops reading without closing must not block the peer forever
+                    let _ = s.set_write_timeout(Some(Duration::from_secs(10)));
                     return Some(s);
                 }
                 Err(e) if e.kind() == std::io::ErrorKind::WouldBlock => {
